@@ -5,6 +5,7 @@ import (
 	"math/rand/v2"
 	"runtime"
 	"strconv"
+	"strings"
 	"sync"
 	"time"
 )
@@ -44,6 +45,8 @@ type Sched struct {
 	// Why says how Run ended when it returns false: "deadlock" (every unfinished worker blocked,
 	// process idle for 3 s) or "watchdog" (wall-clock limit: inconclusive)
 	Why string
+	// Starved counts the times the process looked idle although a goroutine was runnable
+	Starved int
 }
 
 type worker struct {
@@ -170,11 +173,45 @@ func (s *Sched) Run(fns []func()) bool {
 			if next != nil {
 				next.resume <- struct{}{}
 			} else if idle > 750 {
+				// no CPU burnt for 3 s and nobody parked. On an overloaded machine that can also be a
+				// worker the operating system does not let run: only if every other goroutine is
+				// waiting for something is it a deadlock; otherwise keep waiting (the wall-clock
+				// watchdog then ends the trial as inconclusive)
+				if othersRunnable() {
+					s.Starved++
+					idle = 0
+					continue
+				}
 				s.Why = "deadlock"
 				return false
 			}
 		}
 	}
+}
+
+// othersRunnable reports whether any goroutine but the caller is running or runnable
+func othersRunnable() bool {
+	buf := make([]byte, 1<<20)
+	n := runtime.Stack(buf, true)
+	first := true
+	for _, line := range strings.Split(string(buf[:n]), "\n") {
+		if !strings.HasPrefix(line, "goroutine ") {
+			continue
+		}
+		if first {
+			first = false // the caller itself
+			continue
+		}
+		i := strings.IndexByte(line, '[')
+		if i < 0 {
+			continue
+		}
+		st := line[i+1:]
+		if strings.HasPrefix(st, "running") || strings.HasPrefix(st, "runnable") || strings.HasPrefix(st, "syscall") {
+			return true
+		}
+	}
+	return n == len(buf) // a dump that does not fit says nothing
 }
 
 // pick chooses the parked, unfinished worker with the highest priority (caller holds mu)
